@@ -236,7 +236,7 @@ package mkvs
 
 //@ func treeOverlay.Commit
 //@   props C03
-//@   loop 1 invariant GOvYield - old(GOvYield) == GInnerIns - old(GInnerIns) + ite(ok, 1, 0)
+//@   loop 1 invariant GOvYield - old(GOvYield) == GInnerIns - old(GInnerIns) + ite(ok, 1, 0) && GInnerRem == old(GInnerRem)
 //@   loop 2 invariant GOvYield - old(GOvYield) == GInnerIns - old(GInnerIns) && GInnerRem - old(GInnerRem) == idx()
 //@   ensures err == nil ==> GOvYield - old(GOvYield) == GInnerIns - old(GInnerIns)
 //@   note counted: every time the overlay's iterator yields an entry (First/Next returned true), exactly one Insert into the inner tree follows before the next step - no entry of the overlay is skipped at commit, whatever its value and whatever the inner tree already holds; and every key still marked dirty afterwards (a removal) gets exactly one Remove on the inner tree
